@@ -117,6 +117,22 @@ def check_build(spec, ha, hb, hc):
         tot = sum(C._num(x["data"]["entries"] if isinstance(x["data"], dict) else x["data"]) for x in docs)
         if C._num(got["entries"]) != tot:
             out.append(FW.violation(PROP, "build", "Stack.build entries", "entries", args, {"got": got["entries"], "expected": tot}))
+        # two Stacks assembled on different streams are partial results themselves: they merge like any others
+        import pickle
+
+        twice = [R.ref_doc(spec, 2 * (ha + hb + hc))["data"], R.ref_doc(spec, 2 * (hb + hc))["data"],
+                 R.ref_doc(spec, 2 * hc)["data"]]
+        others = [("a Stack built from equal pieces", hg.Stack.build(core.mk(spec, ha), core.mk(spec, hb), core.mk(spec, hc))),
+                  ("its pickle clone", pickle.loads(pickle.dumps(st))), ("its JSON reload", hg.Factory.fromJson(st.toJson()))]
+        for nm, st2 in others:
+            try:
+                for what, m in (("st+st2", st + st2), ("st2+st", st2 + st)):
+                    d = C.diff([e["data"] for e in m.toJson()["data"]["bins"]], twice, drop_names=True)
+                    if d:
+                        out.append(core.v_diff(PROP, "build", "%s differs from the doubled cumulative sums (st2 = %s)" % (what, nm),
+                                               d, m.toJson(), args))
+            except Exception as e:
+                out.append(core.v_exc(PROP, "build", "merging a Stack.build result with %s raised" % nm, e, args))
         fr = hg.Fraction.build(a, b)
         gf = fr.toJson()["data"]
         d = C.diff([gf["numerator"], gf["denominator"]], [R.ref_doc(spec, ha)["data"], R.ref_doc(spec, hb)["data"]], drop_names=True)
